@@ -993,6 +993,15 @@ func genSeq(r *Rng, mode string, steps int) *Enc {
 				}
 			case 1:
 				d = r.Column(n, kInt)
+			case 3: // time cells, among them the zero time (a value, not a missing cell) and nil
+				d = r.Column(n, kTime)
+				for i := range d {
+					if r.Chance(25) {
+						d[i] = time.Time{}
+					} else if r.Chance(15) {
+						d[i] = nil
+					}
+				}
 			case 2: // date strings
 				d = make([]any, n)
 				// one family of texts per column (so that a whole column can be parsable under one layout); the last
